@@ -13,24 +13,24 @@ theorem trail_isNoneTy {t : Ty} (h : isNoneTy t = true) : t = .scalar "none" := 
   · cases h
 
 /-- the LoadErrors among a list of outcomes, in order -/
-def unionErrs (os : List (Outcome Val)) : List LErr :=
+def trailUnionErrs (os : List (Outcome Val)) : List LErr :=
   os.filterMap fun o =>
     match o with
     | .err e => some e
     | _ => none
 
-theorem trail_mem_unionErrs {os : List (Outcome Val)} {x : LErr} (h : x ∈ unionErrs os) :
+theorem trail_mem_unionErrs {os : List (Outcome Val)} {x : LErr} (h : x ∈ trailUnionErrs os) :
     Outcome.err x ∈ os := by
-  unfold unionErrs at h
+  unfold trailUnionErrs at h
   obtain ⟨o, ho, hx⟩ := List.mem_filterMap.mp h
   cases o <;> simp at hx
   subst hx; exact ho
 
 theorem trail_unionFirstOk_err {os : List (Outcome Val)} {errs : List LErr} {x : LErr}
     (h : (unionFirstOk os errs).1 = .err x) :
-    (∀ o ∈ os, ∃ e, o = .err e) ∧ (unionFirstOk os errs).2 = errs ++ unionErrs os := by
+    (∀ o ∈ os, ∃ e, o = .err e) ∧ (unionFirstOk os errs).2 = errs ++ trailUnionErrs os := by
   induction os generalizing errs with
-  | nil => simp [unionFirstOk, unionErrs]
+  | nil => simp [unionFirstOk, trailUnionErrs]
   | cons o rest ih =>
     cases o with
     | err e =>
@@ -41,7 +41,7 @@ theorem trail_unionFirstOk_err {os : List (Outcome Val)} {errs : List LErr} {x :
         rcases List.mem_cons.mp ho with rfl | ho
         · exact ⟨e, rfl⟩
         · exact h1 o ho
-      · rw [h2]; simp [unionErrs]
+      · rw [h2]; simp [trailUnionErrs]
     | ok v => simp [unionFirstOk] at h
     | escape s => simp [unionFirstOk] at h
     | diverge => simp [unionFirstOk] at h
@@ -68,9 +68,9 @@ theorem trail_unionAll_unexpected (os : List (Outcome Val)) (errs : List LErr) :
 
 theorem trail_unionAll_err {os : List (Outcome Val)} {errs : List LErr} {e : LErr}
     (h : unionAll os errs false = .err e) :
-    (∀ o ∈ os, ∃ e', o = .err e') ∧ e = LErr.union (errs ++ unionErrs os) := by
+    (∀ o ∈ os, ∃ e', o = .err e') ∧ e = LErr.union (errs ++ trailUnionErrs os) := by
   induction os generalizing errs with
-  | nil => simp [unionAll] at h; simp [unionErrs, h]
+  | nil => simp [unionAll] at h; simp [trailUnionErrs, h]
   | cons o rest ih =>
     cases o with
     | err e' =>
@@ -81,7 +81,7 @@ theorem trail_unionAll_err {os : List (Outcome Val)} {errs : List LErr} {e : LEr
         rcases List.mem_cons.mp ho with rfl | ho
         · exact ⟨e', rfl⟩
         · exact h1 o ho
-      · rw [h2]; simp [unionErrs]
+      · rw [h2]; simp [trailUnionErrs]
     | ok v => simp [unionAll] at h
     | escape s =>
       simp only [unionAll] at h
@@ -104,7 +104,7 @@ theorem trail_unionAll_ok {os : List (Outcome Val)} {errs : List LErr} {v : Val}
     | diverge => simp [unionAll] at h
 
 /-- the `Optional` fast path, as an expression -/
-def unionOptional (cfg : Cfg) (ld : Ty → Val → Outcome Val) (other : Ty) (d : Val) : Outcome Val :=
+def trailUnionOptional (cfg : Cfg) (ld : Ty → Val → Outcome Val) (other : Ty) (d : Val) : Outcome Val :=
   if d.isNone then .ok .none
   else
     match cfg.trail, ld other d with
@@ -114,7 +114,7 @@ def unionOptional (cfg : Cfg) (ld : Ty → Val → Outcome Val) (other : Ty) (d 
 
 theorem trail_loadUnion_eq (cfg : Cfg) (cases : List Ty) (ld : Ty → Val → Outcome Val) (d : Val) :
     (∃ a b, cases = [a, b] ∧ (isNoneTy a || isNoneTy b) = true ∧
-        loadUnion cfg cases ld d = unionOptional cfg ld (if isNoneTy a then b else a) d) ∨
+        loadUnion cfg cases ld d = trailUnionOptional cfg ld (if isNoneTy a then b else a) d) ∨
     loadUnion cfg cases ld d = loadUnion.general cfg cases ld d := by
   unfold loadUnion
   split
@@ -122,7 +122,7 @@ theorem trail_loadUnion_eq (cfg : Cfg) (cases : List Ty) (ld : Ty → Val → Ou
     by_cases hn : (isNoneTy a || isNoneTy b) = true
     · left
       refine ⟨a, b, rfl, hn, ?_⟩
-      simp only [hn, ↓reduceIte, unionOptional]
+      simp only [hn, ↓reduceIte, trailUnionOptional]
       rfl
     · right
       simp only [hn, Bool.false_eq_true, ↓reduceIte]
@@ -138,7 +138,7 @@ theorem trail_loadUnion_err {cfg : Cfg} {cases : List Ty} {ld : Ty → Val → O
           errs = [LErr.leaf "TypeLoadError" d, e0]) ∨
        ((∀ c ∈ cases, ∃ ec, ld c d = .err ec) ∧ ∀ x ∈ errs, ∃ c ∈ cases, ld c d = .err x)) := by
   have hgen : ∀ os : List (Outcome Val), os = cases.map (fun c => ld c d) →
-      ∀ errs, (∀ o ∈ os, ∃ e', o = .err e') → errs = unionErrs os →
+      ∀ errs, (∀ o ∈ os, ∃ e', o = .err e') → errs = trailUnionErrs os →
       ((∀ c ∈ cases, ∃ ec, ld c d = .err ec) ∧ ∀ x ∈ errs, ∃ c ∈ cases, ld c d = .err x) := by
     intro os hos errs hall herrs
     subst hos herrs
@@ -150,7 +150,7 @@ theorem trail_loadUnion_err {cfg : Cfg} {cases : List Ty} {ld : Ty → Val → O
       exact ⟨c, hc, hcx⟩
   rcases trail_loadUnion_eq cfg cases ld d with ⟨a, b, hab, hn, heq⟩ | heq
   · rw [heq] at h
-    unfold unionOptional at h
+    unfold trailUnionOptional at h
     cases hd : d.isNone
     · simp only [hd, Bool.false_eq_true, ↓reduceIte] at h
       cases hl : ld (if isNoneTy a then b else a) d with
@@ -178,8 +178,8 @@ theorem trail_loadUnion_err {cfg : Cfg} {cases : List Ty} {ld : Ty → Val → O
       | err x =>
         obtain ⟨h1, h2⟩ := trail_unionFirstOk_err hu
         have hsplit : unionFirstOk (cases.map fun c => ld c d) [] =
-            (.err x, unionErrs (cases.map fun c => ld c d)) := by
-          rw [← hu, ← List.nil_append (unionErrs _), ← h2]
+            (.err x, trailUnionErrs (cases.map fun c => ld c d)) := by
+          rw [← hu, ← List.nil_append (trailUnionErrs _), ← h2]
         rw [hsplit] at h
         simp only [Outcome.err.injEq] at h
         exact ⟨_, h.symm, Or.inr (hgen _ rfl _ h1 rfl)⟩
@@ -209,7 +209,7 @@ theorem trail_loadUnion_ok {cfg : Cfg} {cases : List Ty} {ld : Ty → Val → Ou
     (∃ c ∈ cases, ld c d = .ok v) := by
   rcases trail_loadUnion_eq cfg cases ld d with ⟨a, b, hab, hn, heq⟩ | heq
   · rw [heq] at h
-    unfold unionOptional at h
+    unfold trailUnionOptional at h
     cases hd : d.isNone
     · simp only [hd, Bool.false_eq_true, ↓reduceIte] at h
       right
@@ -261,7 +261,7 @@ theorem trail_loadUnion_err_disable {cfg : Cfg} {cases : List Ty} {ld : Ty → V
     e = LErr.bare ∨ ∃ c ∈ cases, ld c d = .err e := by
   rcases trail_loadUnion_eq cfg cases ld d with ⟨a, b, hab, hn, heq⟩ | heq
   · rw [heq] at h
-    unfold unionOptional at h
+    unfold trailUnionOptional at h
     cases hd : d.isNone
     · simp only [hd, Bool.false_eq_true, ↓reduceIte, hm] at h
       right
